@@ -14,6 +14,34 @@ for _codec in ('ascii', 'utf-16-le', 'utf-16-be', 'utf-32-le', 'utf-32-be'):
     for _s, _name in (('\n', 'LF'), ('\r\n', 'CRLF')):
         NEWLINES.append(('%s/%s' % (_name, _codec), _s.encode(_codec)))
 
+# ... plus every other newline byte sequence a codec of the platform gives
+# (EBCDIC code pages encode LF as 0x25 "%"; UTF-16/32 with BOM reduce to the
+# LE/BE forms above)
+def _other_newlines():
+    import codecs
+    import encodings.aliases
+    seen = set(b for n, b in NEWLINES)
+    out = []
+    names = set(encodings.aliases.aliases.values()) | {'utf-8', 'cp037'}
+    for n in sorted(names):
+        try:
+            sig = ''.encode(n)
+            for s_, tag in (('\n', 'LF'), ('\r\n', 'CRLF')):
+                b = s_.encode(n)[len(sig):]
+                if b and b not in seen and len(b) <= 8 and \
+                        'a'.encode(n)[len(sig):] != b and \
+                        ('x' + s_ + 'y').encode(n).decode(n) == 'x' + s_ + 'y':
+                    # keep border-free sequences only
+                    if all(b[:k] != b[-k:] for k in range(1, len(b))):
+                        seen.add(b)
+                        out.append(('%s/%s' % (tag, n), b))
+        except Exception:
+            continue
+    return out
+
+
+NEWLINES += _other_newlines()
+
 for _name, _nl in NEWLINES:       # border-free => occurrence count well defined
     for _k in range(1, len(_nl)):
         assert _nl[:_k] != _nl[-_k:], _name
@@ -136,6 +164,11 @@ def run_unit(unit, tier):
     name, newline = NEWLINES[ni]
     acc = Acc()
 
+    extra = [bytes([c]) for c in sorted(set(newline))
+             if bytes([c]) not in alpha]
+    if extra:
+        alpha = list(alpha) + extra
+
     def one(data):
         viols, nt = check_one(data, newline)
         acc.evals += 1
@@ -161,6 +194,8 @@ def run_unit(unit, tier):
                 one(a)
         return acc
     p = alpha[prefix[0]] + alpha[prefix[1]]
+    if extra:
+        maxlen = max(4, maxlen - 2)      # larger alphabet, shorter strings
     first = None
     if si > 0:
         first = (_scopes(tier)[0][0], _scopes(tier)[0][1])
